@@ -15,12 +15,13 @@ def main(prop='C18'):
     t, sd = tier(), seed()
     rep = Report('C18')
     r = kani_run.run_group('arith', timeout_s=1500 if t == 'quick' else 3000)
-    r2 = kani_run.run_group('span', timeout_s=900)
-    # one result over both groups
-    r = dict(r, harnesses=dict(r['harnesses'], **r2['harnesses']), failed_checks=dict(r.get('failed_checks') or {}, **(r2.get('failed_checks') or {})),
-             playback=dict(r.get('playback') or {}, **(r2.get('playback') or {})), wall_s=round(r['wall_s'] + r2['wall_s'], 1),
-             status=('violation' if 'violation' in (r['status'], r2['status']) else ('inconclusive' if 'inconclusive' in (r['status'], r2['status']) else 'ok')),
-             why={'arith': r.get('why'), 'span': r2.get('why')}, log=r['log'] + ' ' + r2['log'])
+    for g in ('span', 'idx'):
+        r2 = kani_run.run_group(g, timeout_s=900)
+        # one result over all groups
+        r = dict(r, harnesses=dict(r['harnesses'], **r2['harnesses']), failed_checks=dict(r.get('failed_checks') or {}, **(r2.get('failed_checks') or {})),
+                 playback=dict(r.get('playback') or {}, **(r2.get('playback') or {})), wall_s=round(r['wall_s'] + r2['wall_s'], 1),
+                 status=('violation' if 'violation' in (r['status'], r2['status']) else ('inconclusive' if 'inconclusive' in (r['status'], r2['status']) else 'ok')),
+                 why={'before': r.get('why'), g: r2.get('why')}, log=r['log'] + ' ' + r2['log'])
     hs = r['harnesses']
     proved = [n for n, v in hs.items() if v == 'SUCCESSFUL']
     failed = [n for n, v in hs.items() if v == 'FAILED' and not n.endswith('_witness')]
@@ -42,8 +43,8 @@ def main(prop='C18'):
             'checker_cmd': 'cargo kani --features verif-hooks -j 16 --output-format terse --harness <each> (ROOC_VERIF_KANI_DIR=/verif/kani) on an rsync copy of /repo working tree',
             'trusted_base': ['Kani 0.68.0', 'CBMC 6.11.0', 'cadical', 'rustc MIR -> goto translation'],
             'harnesses': hs, 'vacuity_witnesses': {n: v for n, v in hs.items() if n.endswith('_witness')},
-            'functions_encoded': kani_run.functions_encoded('arith') + kani_run.functions_encoded('span'),
-            'stubs': ['alloc::fmt::format -> empty String in the span group (the error text is not part of the claim)'],
+            'functions_encoded': kani_run.functions_encoded('arith') + kani_run.functions_encoded('span') + kani_run.functions_encoded('idx'),
+            'stubs': ['alloc::fmt::format -> empty String in the span and idx groups (the error text is not part of the claim)', '<IterableKind as Display>::fmt -> Ok(()) in the idx group'],
             'evaluations': len(hs), 'distinct_nontrivial': len(proved),
             'samples': [{'harness': 'span_text_total', 'inputs': 'start: u32 = any, len: u32 = any, text = "a\u2264b\u00e9c"', 'assert': 'returns; Ok <=> span inside the text on character boundaries; slice length = len'}, {'harness': 'arith_u64_sub_int', 'inputs': 'a: u64 = any, b: i64 = any', 'assert': 'Ok(Integer(v)) => v == a - b in i128; otherwise Err'}],
             'kani_wall_s': r['wall_s'],
